@@ -233,7 +233,7 @@ func inputs(c *codec, tier string, yield func([]byte) bool) {
 					if romon {
 						base = n - 2
 					}
-					if base >= 3 && n <= 200 {
+					if base >= 3 && n <= 255 {
 						mustAccept[string(b)] = true
 					}
 					if !emit(b) {
